@@ -15,12 +15,12 @@ Section StepT4.
     let s1 := mkState (sC s) (upd2 (sM s) r c 2) rc cc z in
     (forall i j, gM s1 i j = if (Nat.eqb i r && Nat.eqb j c)%bool then 2 else gM s i j)
     /\ (forall i j, gM s1 i j = 1 <-> gM s i j = 1)
-    /\ wf n s1 /\ kc n s1 = kc n s /\ shiftedD n M0 s1
+    /\ wf n s1 /\ kc n s1 = kc n s
     /\ (forall i j, gM s i j = 2 -> gM s1 i j = 2)
     /\ (forall rank bound, (forall i, rcov s i = true -> rank i < bound) -> prime_rank rank s ->
           prime_rank (fun i => if Nat.eqb i r then bound else rank i) s1).
   Proof.
-    intros s r c rc cc z [[B [SCV PO]] [D _]] Hr Hc Rr Cc Lr Lc s1.
+    intros s r c rc cc z [[B [SCV PO]] _] Hr Hc Rr Cc Lr Lc s1.
     pose proof (b_wf _ _ _ B) as W. pose proof W as [SC [SM _]].
     assert (GM : forall i j, gM s1 i j = if (Nat.eqb i r && Nat.eqb j c)%bool then 2 else gM s i j)
       by (intros; apply (gM_prime n); assumption).
@@ -31,7 +31,7 @@ Section StepT4.
       destruct (Nat.eqb_spec j c) as [->|]; [|tauto]. split; [discriminate | intro; contradiction]. }
     assert (W1 : wf n s1) by (unfold s1; repeat split; simpl; auto; try apply SC; apply sq_upd2; exact SM).
     split; [exact GM|]. split; [exact ST|]. split; [exact W1|].
-    split; [apply kc_ext; assumption|]. split; [apply (shiftedD_C n M0 s); [reflexivity | exact D]|].
+    split; [apply kc_ext; assumption|].
     split.
     - intros i j H. rewrite GM. destruct (Nat.eqb i r && Nat.eqb j c)%bool; [reflexivity | exact H].
     - intros rank bound HB PR i j i' H2 H1. apply ST in H1. rewrite GM in H2.
@@ -53,11 +53,11 @@ Section StepT4.
     T4 n M0 s1 /\ cnt (sRC s1) = S (cnt (sRC s)) /\ kc n s1 = kc n s.
   Proof.
     intros s r c sc T Hr Hc HC Rr Cc F s1.
-    pose proof T as [P [D [K [CN [CP [rank [bound [HB PR]]]]]]]].
+    pose proof T as [P [K [CN [CP [rank [bound [HB PR]]]]]]].
     pose proof P as [B [SCV PO]]. pose proof (b_wf _ _ _ B) as [SC [SM [Lr Lc]]].
     destruct (prime_facts s r c (upd (sRC s) r true) (upd (sCC s) sc false) (sZ0 s) T Hr Hc Rr Cc
                 ltac:(rewrite upd_length; exact Lr) ltac:(rewrite upd_length; exact Lc))
-      as [GM [ST [W1 [K1 [D1 [PP RK]]]]]]. fold s1 in GM, ST, W1, K1, D1, PP, RK.
+      as [GM [ST [W1 [K1 [PP RK]]]]]. fold s1 in GM, ST, W1, K1, PP, RK.
     pose proof F as F'. apply (find_in_row_some n) in F'; [|apply sq_upd2; exact SM | discriminate].
     destruct F' as [_ [Hsc [F' _]]]. change (get2 0 (upd2 (sM s) r c 2) r sc) with (gM s1 r sc) in F'.
     apply ST in F'.
@@ -69,7 +69,7 @@ Section StepT4.
     assert (R1 : cnt (sRC s1) = S (cnt (sRC s))) by (apply cnt_upd_true; [lia | exact Rr]).
     assert (C1 : S (cnt (sCC s1)) = cnt (sCC s)) by (apply cnt_upd_false; [lia | exact Csc]).
     split; [|split; [exact R1 | exact K1]].
-    split; [apply step4_iter_cont; assumption|]. split; [exact D1|]. split; [rewrite K1; exact K|].
+    split; [apply step4_iter_cont; assumption|]. split; [rewrite K1; exact K|].
     split; [rewrite K1; lia|]. split.
     - intros i H. rewrite GR in H. destruct (Nat.eqb_spec i r) as [E|Ni]; [subst i|].
       + exists c. rewrite GM. rewrite !Nat.eqb_refl. reflexivity.
@@ -87,12 +87,12 @@ Section StepT4.
     T5 n M0 s1 /\ kc n s1 = kc n s.
   Proof.
     intros s r c T Hr Hc HC Rr Cc F s1.
-    pose proof T as [P [D [K [CN [CP [rank [bound [HB PR]]]]]]]].
+    pose proof T as [P [K [CN [CP [rank [bound [HB PR]]]]]]].
     pose proof P as [B [SCV PO]]. pose proof (b_wf _ _ _ B) as [SC [SM [Lr Lc]]].
     destruct (prime_facts s r c (sRC s) (sCC s) (r, c) T Hr Hc Rr Cc Lr Lc)
-      as [GM [ST [W1 [K1 [D1 [PP RK]]]]]]. fold s1 in GM, ST, W1, K1, D1, PP, RK.
+      as [GM [ST [W1 [K1 [PP RK]]]]]. fold s1 in GM, ST, W1, K1, PP, RK.
     split; [|exact K1].
-    split; [apply step4_iter_exit5; assumption|]. split; [exact D1|]. split; [rewrite K1; exact K|].
+    split; [apply step4_iter_exit5; assumption|]. split; [rewrite K1; exact K|].
     split; [|split; [|split]].
     - intros i j H. apply ST in H. exact (SCV i j H).
     - intros i j H. rewrite GM in H. change (ccov s1 j) with (ccov s j).
